@@ -27,6 +27,7 @@ type verifConn struct {
 	seg    bool
 	segBudget int // number of transport reads that are still segmented (the rest deliver everything available)
 	werr   error
+	eofWithData bool // the transport reports io.EOF together with the last bytes (io.Reader allows it: buffered and tunnelled transports do)
 }
 
 func (c *verifConn) Read(p []byte) (int, error) {
@@ -54,6 +55,9 @@ func (c *verifConn) Read(p []byte) (int, error) {
 	}
 	copy(p, c.in[c.pos:c.pos+n])
 	c.pos += n
+	if c.eofWithData && c.pos == len(c.in) {
+		return n, io.EOF
+	}
 	return n, nil
 }
 func (c *verifConn) Write(p []byte) (int, error) {
